@@ -296,7 +296,8 @@ func c03Body(x *explore.Ctx, readerIsServer bool, ek encKind, sizeIdx, maxFrags 
 			// negotiated: later messages may be of any encoding
 			ek2 = eks[x.Choose(len(eks), pfx+"enc")]
 		}
-		g.addMessage(x, pfx, masked, ek2, x.Choose(len(c03Sizes), pfx+"size"), maxFrags, x.Choose, false)
+		// (default size of a further message is 5 bytes, not 0: an empty message hides payload bugs)
+		g.addMessage(x, pfx, masked, ek2, (3+x.Choose(len(c03Sizes), pfx+"size"))%len(c03Sizes), maxFrags, x.Choose, false)
 	}
 	stream := wsref.EncodeAll(g.frames)
 	readStream(x, "C03", g, stream, readerIsServer, ek.comp, split)
@@ -317,11 +318,18 @@ func readStream(x *explore.Ctx, id string, g *genStream, stream []byte, readerIs
 	}
 	rbs := c03Rbs[x.Choose(len(c03Rbs), "ReadBufferSize")]
 	c := websocket.VerifNewConn(nc, readerIsServer, rbs, 150, nil, deflate)
-	rprog := x.Choose(4, "readprog")
-	rbuf, abandon := 4096, 0
+	// one dimension: read program incl. abandoning the first message (so that "abandon, then
+	// read the next message" costs one deviation plus one for the second message)
+	rprog, abandon := 0, 0
+	switch v := x.Choose(8, "readprog"); {
+	case v < 4:
+		rprog = v
+	default:
+		rprog, abandon = 1, v-3 // 1: after 0 bytes, 2: after 1 byte, 3: after half, 4: after 3 bytes
+	}
+	rbuf := 4096
 	if rprog == 1 {
 		rbuf = rbufChoices[x.Choose(len(rbufChoices), "readsize")]
-		abandon = x.Choose(4, "abandon-first")
 	}
 	key := func(what string) string {
 		return fmt.Sprintf("%s:%s:reader=%s:deflate=%v", id, what, roleName(readerIsServer), deflate)
@@ -403,7 +411,7 @@ func readStream(x *explore.Ctx, id string, g *genStream, stream []byte, readerIs
 			buf := make([]byte, rbuf)
 			limit := -1
 			if i == 0 && abandon > 0 && len(want) > 0 {
-				limit = []int{0, 0, 1, len(want[0].Payload) / 2}[abandon]
+				limit = min([]int{0, 0, 1, len(want[0].Payload) / 2, 3}[abandon], len(want[0].Payload))
 			}
 			abandoned := false
 			for {
